@@ -224,6 +224,8 @@ def check_arm(chk, f, name, enum, av, arm, sw_bb):
                 cl = f.tr.value(t["args"][1])
                 cname = cl.rv.get("n") if cl.kind == "agg" and cl.rv.get("kind") == "closure" else None
                 cb = f.b.crate.bodies.get(cname) if (cname and f.b.crate is not None) else None
+                if cb is None and cname and f.b.crate is not None:
+                    cb = getattr(f.b.crate, "absorbed", {}).get(cname)         # closure of a helper that was inlined here
                 names_code = False
                 if cb is not None:
                     import json as _json
